@@ -598,6 +598,54 @@ def rule_l(ctx):
     raise AnalysisError(f'only {n} from_json functions found')
 
 
+STRIP_FAMILY = ('strip', 'rstrip', 'lstrip', 'removesuffix', 'removeprefix', 'splitlines', 'split')
+
+
+def _line_class(idx, f, expr, depth=4):
+  """'raw' = exactly what readline() returned; 'stripped' = readline() result
+  with characters removed; None = unrelated.  Followed through locals and the
+  returns of private helpers (one level per step)."""
+  if depth <= 0 or expr is None:
+    return None
+  if isinstance(expr, ast.Call):
+    if isinstance(expr.func, ast.Attribute) and expr.func.attr == 'readline':
+      return 'raw'
+    if isinstance(expr.func, ast.Attribute) and expr.func.attr in STRIP_FAMILY:
+      inner = _line_class(idx, f, expr.func.value, depth)
+      return 'stripped' if inner else None
+    d = A.call_name(expr) or ''
+    if d.startswith('self.') and d.count('.') == 1:
+      cls = idx.enclosing_class(f)
+      h = idx.lookup_method(cls.fq, d.split('.')[1]) if cls is not None else None
+      if h is not None:
+        cs = {_line_class(idx, h, r.value, depth - 1) for r in ast.walk(h.node)
+              if isinstance(r, ast.Return) and r.value is not None}
+        if 'stripped' in cs:
+          return 'stripped'
+        if 'raw' in cs:
+          return 'raw'
+    if d in ('len', 'bool') and expr.args:
+      return _line_class(idx, f, expr.args[0], depth)
+    return None
+  if isinstance(expr, ast.Name):
+    cs = {_line_class(idx, f, v, depth - 1) for _, v in D.defs_of(f.node, expr.id) if v is not None}
+    if 'stripped' in cs:
+      return 'stripped'
+    if 'raw' in cs:
+      return 'raw'
+    return None
+  if isinstance(expr, ast.NamedExpr):
+    return _line_class(idx, f, expr.value, depth)
+  if isinstance(expr, (ast.UnaryOp,)):
+    return _line_class(idx, f, expr.operand, depth)
+  if isinstance(expr, ast.Compare):
+    for e in [expr.left] + list(expr.comparators):
+      c = _line_class(idx, f, e, depth)
+      if c:
+        return c
+  return None
+
+
 def rule_j(ctx):
   """Record framing of the line sequence: the writer terminates every record
   with one newline after removing trailing newlines; the reader removes that
@@ -608,31 +656,20 @@ def rule_j(ctx):
   f = idx.func('pyglove.core.io.sequence.LineSequence._iter')
   g = C.cfg_of(f.node)
   problems = []
-  reads = [k for k in g.nodes if k.ast is not None and any((A.call_name(c) or '').endswith('.readline') for c in k.calls())]
-  if not reads:
+  if 'readline' not in S.closure_text(idx, f):
     raise AnalysisError('LineSequence._iter no longer uses readline()')
-  eof_tests = [k for k in g.nodes if k.kind == 'test' and isinstance(k.ast, ast.Name)]
-  found = False
-  for t in eof_tests:
-    for dn, val in D.reaching_defs(g, t, t.ast.id):
-      if val is None:
-        continue
-      if A.has_call(val, lambda d: d.endswith('.readline')):
-        found = True
-        bare = isinstance(val, ast.Call) and (A.call_name(val) or '').endswith('.readline')
-        if not bare:
-          problems.append(f'end of file is tested on `{A.unparse(val)}`, not on the raw readline() result: an empty '
-                          f'record (the line "\\n") is taken for the end of the file and everything after it is lost')
-  if not found:
-    # `while (line := f.readline()):` / `for line in iter(f.readline, '')` forms are fine too
-    txt = A.unparse(f.node, 2000)
-    if 'readline()' not in txt and 'readline,' not in txt:
-      problems.append('no end-of-file test on readline()')
+  classes = [(k, _line_class(idx, f, k.ast)) for k in g.nodes if k.kind == 'test']
+  eof = [(k, c) for k, c in classes if c]
+  if not eof:
+    problems.append('no end-of-file test on what readline() returned')
+  for k, c in eof:
+    if c == 'stripped':
+      problems.append(f'end of file is tested on a stripped line (`{A.unparse(k.ast, 60)}`, line {k.lineno}), not on the raw '
+                      f'readline() result: an empty record (the line "\\n") is taken for the end of the file and '
+                      f'everything after it is lost')
   ys = [n for n in ast.walk(f.node) if isinstance(n, ast.Yield) and n.value is not None]
-  if not any("rstrip('\\n')" in A.unparse(y.value) or 'rstrip("\\n")' in A.unparse(y.value) or
-             any("rstrip('\\n')" in A.unparse(v) for _, v in D.defs_of(f.node, y.value.id) if v is not None)
-             if isinstance(y.value, ast.Name) else "rstrip('\\n')" in A.unparse(y.value) for y in ys):
-    problems.append("the reader no longer removes the record terminator '\\n'")
+  if not ys or not all(_line_class(idx, f, y.value) == 'stripped' for y in ys):
+    problems.append("the reader no longer removes the record terminator '\\n' from what it yields")
   ctx.ob('C05.j', f.fq, not problems,
          'the line reader detects end-of-file on the raw readline() result and strips exactly the terminator',
          f.loc, '; '.join(problems))
